@@ -143,7 +143,9 @@ class ClaytonCopula(LevyCopula):
         theta = self.theta
         u_prod = np.prod(u)
         theta_prod = np.prod(1 + np.arange(dim) * theta)
-        factor = self.eta if u_prod >= 0 else -(1.0 - self.eta)
+        # the mixed derivative of a Lévy copula is a density: it is non-negative on every orthant (the sign of the
+        # copula on the orthants where the product is negative is cancelled by the derivative of |u_i|)
+        factor = self.eta if u_prod >= 0 else (1.0 - self.eta)
 
         res = 2 ** (2 - dim) * theta_prod * factor
         term1 = abs(u_prod) ** (-theta - 1)
